@@ -77,7 +77,7 @@ GOOD_RULE = {
 }
 BAD_RULE = {
     'charset': [('@charset ascii;', 'early'), ('@charset "ascii"', 'late'), ('@charset "ascii"; a{}', 'late'), ('@charset "no-such-codec-zz";', 'late')],
-    'import': [('@import ;', 'early'), ('@import "j.css" 3d;', 'late'), ('@import "j.css" tv', 'late'), ('@import "j.css" tv, ;', 'late'), ('@import "j.css" tv; a{}', 'late'), ('@import "j.css" "k.css";', 'late')],
+    'import': [('@import "bad.css" tv "n2";', 'nested'), ('@import url(bad3.css);', 'nested'), ('@import ;', 'early'), ('@import "j.css" 3d;', 'late'), ('@import "j.css" tv', 'late'), ('@import "j.css" tv, ;', 'late'), ('@import "j.css" tv; a{}', 'late'), ('@import "j.css" "k.css";', 'late')],
     'namespace': [('@namespace ;', 'early'), ('@namespace n1 "urn:other";', 'late'), ('@namespace n5 "urn:other";', 'late'), ('@namespace "urn:n1";', 'ok'), ('@namespace n5 "urn:n1";', 'ok'), ('@namespace n5 "urn:n1" x;', 'late'), ('@namespace n5 "urn:n1"', 'late')],
     'variables': [('@variables{v9:}', 'late'), ('@variables{v9:blue;v8}', 'late'), ('@variables{v9:blue', 'late'), ('@variables x{v9:blue}', 'early')],
     'style': [('z1,{top:0}', 'late'), ('z1{top:0}}', 'late'), ('z1{top:0} z2{left:0}', 'late'), ('zz|z1{top:0}', 'early'), ('z1, zz|z2{top:0}', 'late'), ('z1{top:0;left:)}', 'nested'),
@@ -108,7 +108,7 @@ NAMES = [('bottom', 'ok'), ('BOTTOM', 'ok'), ('-x-y', 'ok'), ('1a', 'early'), ('
 PRIOS = [('important', 'ok'), ('!important', 'ok'), ('', 'ok'), ('x', 'early'), ('important x', 'late'), ('! important !', 'late'), ('1', 'early')]
 PROPTEXTS = [('bottom:2px', 'ok'), ('bottom:2px !important', 'ok'), ('bottom:)', 'late'), ('bottom', 'late'), (':2px', 'early'), ('bottom:2px !x', 'late'), ('bottom:2px;top:1px', 'late'), ('bottom 2px', 'late'),
              ('$bottom:2px', 'early'), ('bottom:', 'late'), ('bottom:2px !important x', 'late')]  # fmt: skip
-HREFS = [('k.css', 'ok'), ('', 'ok'), ('a b.css', 'ok')]
+HREFS = [('k.css', 'ok'), ('', 'ok'), ('a b.css', 'ok'), ('bad.css', 'nested'), ('sub/bad2.css', 'nested')]  # (bad*: the fetcher of variant 3 serves a sheet with errors of its own)
 IMPORT_NAMES = [('nm', 'ok'), ('', 'ok'), (None, 'ok'), (1, 'early')]
 ENCODINGS = [('ascii', 'ok'), ('utf-8', 'ok'), ('no-such-codec-zz', 'early'), ('', 'early'), ('a b', 'early'), (None, 'ok')]
 PREFIXES = [('n5', 'ok'), ('', 'ok'), ('1x', 'early'), ('a b', 'late'), ('n1', 'ok'), ('"x"', 'early')]
@@ -368,7 +368,13 @@ def battery_case(ctx, c, muts, mi, ii, prior_seed, readonly=False, variant=0):
     if variant == 3:
         # variables supplied only by an imported sheet, used through var(); an extra declaration of a namespace that is in use
         text = BASE.replace('@variables{v1:red;v2:1px}\n', '').replace('@namespace "urn:d";', '@namespace "urn:d";@namespace n7 "urn:n7";').replace('vv{', 'n7|w{top:0}vv{')
-        sheet = c.CSSParser(fetcher=lambda url: (None, '@variables{v1:green;v2:2px}iv{top:0}')).parseString(text, href='http://h/base.css')
+        def fetch(url):
+            if 'bad' in url:
+                # an imported sheet that is wrong in itself: a late @import, a stray @charset, an unknown prefix (raising mode makes exceptions of these)
+                return (None, 'a{top:0} @import "late.css"; @charset "x"; zz|q{left:0} }')
+            return (None, '@variables{v1:green;v2:2px}iv{top:0}')
+
+        sheet = c.CSSParser(fetcher=fetch).parseString(text, href='http://h/base.css')
     else:
         sheet = c.parseString(BASE_ALL if variant == 1 else BASE)
     if variant == 2:
